@@ -86,9 +86,26 @@ def build(api, recs, delimiter, rng, how=None):
     """Build a real converter from plain records: constructor or incremental, in a random order."""
     order = list(recs)
     rng.shuffle(order)
-    how = how or rng.choice(["ctor", "ctor", "incremental", "mixed"])
+    how = how or rng.choice(["ctor", "ctor", "incremental", "mixed", "grown-by-merge"])
     if how == "ctor":
         return api.Converter([mk_record(api, r) for r in order], delimiter=delimiter), how
+    if how == "grown-by-merge":
+        # records that start as bare (prefix, URI prefix) pairs - synonym fields never set - and acquire
+        # their synonyms later through merges: the same content as `recs`, but objects with a past
+        if any(r.pattern for r in order):
+            c = api.Converter([api.Record(prefix=r.prefix, uri_prefix=r.uri_prefix, pattern=r.pattern) for r in order], delimiter=delimiter)
+        else:
+            c = api.Converter.from_prefix_map({r.prefix: r.uri_prefix for r in order}, delimiter=delimiter)
+        for r in rng.sample(order, k=len(order)):
+            if r.psyn or r.usyn:
+                if rng.random() < 0.5:
+                    c.add_prefix(r.prefix, r.uri_prefix, list(r.psyn), list(r.usyn), merge=True)
+                else:
+                    for x in r.psyn:
+                        c.add_record(api.Record(prefix=x, uri_prefix=r.uri_prefix), merge=True)
+                    for x in r.usyn:
+                        c.add_record(api.Record(prefix=r.prefix, uri_prefix=x), merge=True)
+        return c, how
     k = 0 if how == "incremental" else rng.randint(0, len(order))
     c = api.Converter([mk_record(api, r) for r in order[:k]], delimiter=delimiter)
     for r in order[k:]:
